@@ -1,224 +1,259 @@
-"""A8 -- sibling / twin agreement: two MIR bodies must be isomorphic modulo a small substitution (callee, field and type names).
+"""A8 -- sibling / twin agreement at the level of effects.
 
-The walk starts at the entry blocks and builds a bijection on locals and blocks on the fly. Statements must be equal modulo the
-bijection and the substitution; the first divergence is reported with the two statements. Immune to renames of locals, comments
-and formatting; sensitive to reordering independent statements inside one twin (accepted, see DESIGN.md C01).
+Two bodies are compared after a normalisation that removes what a behaviour-preserving clean-up changes:
+  * single-assignment locals (temporaries and `let` bindings alike) are inlined into terms (A1), so introducing, inlining or
+    renaming a local, or moving a pure computation, changes nothing;
+  * blocks that only jump are collapsed, so `if c { return x }` and `if c { x } else { .. }` have the same graph;
+  * a block is summarised by the multiset of its stores to *state* (reassigned locals, memory behind references, the return
+    place) with the stored terms, plus its terminator with operand terms -- the order of independent statements is ignored;
+  * `cmp::min(a, b)` / `a.min(b)` and `max` are the same callee.
+The walk builds a bijection on blocks and on reassigned locals; terms must be equal modulo that bijection and a per-pair
+substitution on names (`word` <-> `word_unchecked`, Identity <-> Complement, ...). The first divergence is reported.
 """
-from facts import pl, rval, term_str, opnd
+from facts import tstr, callee_name
+
+ALIASES = {"std::cmp::Ord::min": "std::cmp::min", "std::cmp::Ord::max": "std::cmp::max", "core::cmp::Ord::min": "std::cmp::min",
+           "core::cmp::Ord::max": "std::cmp::max", "core::cmp::min": "std::cmp::min", "core::cmp::max": "std::cmp::max"}
 
 
 class Diverge(Exception):
     pass
 
 
+class Side:
+    def __init__(self, b):
+        self.b = b
+        self.multi = set()
+        for l, ds in b.defs().items():
+            whole = [d for d in ds if d[2] in ("assign", "call")]
+            if len(whole) != 1 or len(ds) != len(whole):
+                self.multi.add(l)
+        self.multi.add(0)
+        self.reach = b.reachable()
+        self._skip = {}
+
+    def is_state_store(self, st):
+        if st["s"] == "setdiscr":
+            return True
+        lhs = st["lhs"]
+        if lhs["p"]:
+            return True
+        return lhs["l"] in self.multi
+
+    def resolve(self, blk):
+        """Follows blocks that contain no state store and end in a plain goto."""
+        seen = set()
+        while blk not in seen:
+            seen.add(blk)
+            B = self.b.blocks[blk]
+            if B["term"]["t"] == "goto" and not any(self.is_state_store(st) for st in B["stmts"]):
+                blk = B["term"]["target"]
+            else:
+                break
+        return blk
+
+    def summary(self, blk):
+        B = self.b.blocks[blk]
+        stores = []
+        for st in B["stmts"]:
+            if self.is_state_store(st):
+                if st["s"] == "setdiscr":
+                    stores.append((self.b.term_of_place(st["lhs"]), ("setdiscr", st["variant"])))
+                else:
+                    lhs = st["lhs"]
+                    if lhs["p"]:
+                        place = self.b.term_of_place(lhs)
+                    else:
+                        place = ("var", lhs["l"], self.b.local_name(lhs["l"]))
+                    stores.append((place, self.b.term_of_rvalue(st["rv"])))
+        return stores, B["term"]
+
+
 class Walker:
     def __init__(self, A, B, subst, types=True):
-        self.A, self.B = A, B
+        self.A, self.B = Side(A), Side(B)
+        self.subst = subst
         self.types = types
-        self.subst = subst            # list of (from, to) applied to strings of B
-        self.lmap = {}                # local of A -> local of B
-        self.lrev = {}
+        self.lmap = {0: 0}
+        self.lrev = {0: 0}
         self.bmap = {}
         self.brev = {}
         self.steps = 0
+        for i in range(1, A.nargs + 1):
+            self.lmap[i] = i
+            self.lrev[i] = i
 
     def canon(self, s):
         if not isinstance(s, str):
             return s
         for a, b in self.subst:
             s = s.replace(a, b)
-        return s
+        return ALIASES.get(s, s)
 
-    def local(self, la, lb, ctx):
+    def bind_local(self, la, lb, ctx):
         if la in self.lmap:
             if self.lmap[la] != lb:
-                raise Diverge("%s: local _%d of the first twin corresponds to _%d, not _%d" % (ctx, la, self.lmap[la], lb))
+                raise Diverge("%s: state local _%d of the first twin corresponds to _%d, not _%d" % (ctx, la, self.lmap[la], lb))
             return
         if lb in self.lrev:
-            raise Diverge("%s: local _%d of the second twin already corresponds to _%d" % (ctx, lb, self.lrev[lb]))
-        ta = self.A.locals[la]["ty"]["s"]
-        tb = self.canon(self.B.locals[lb]["ty"]["s"])
-        if self.types and self.canon(ta) != tb:
-            raise Diverge("%s: local types differ: %s vs %s" % (ctx, ta, self.B.locals[lb]["ty"]["s"]))
+            raise Diverge("%s: state local _%d of the second twin already corresponds to _%d" % (ctx, lb, self.lrev[lb]))
         self.lmap[la] = lb
         self.lrev[lb] = la
 
-    def place(self, pa, pb, ctx):
-        self.local(pa["l"], pb["l"], ctx)
-        if len(pa["p"]) != len(pb["p"]):
-            raise Diverge("%s: projections differ: %s vs %s" % (ctx, pl(pa), pl(pb)))
-        for ea, eb in zip(pa["p"], pb["p"]):
-            if isinstance(ea, dict) and isinstance(eb, dict):
-                if "idx" in ea and "idx" in eb:
-                    self.local(ea["idx"], eb["idx"], ctx)
-                    continue
-                ka = {k: self.canon(v) for k, v in ea.items() if k not in ("ty", "adt")}
-                kb = {k: self.canon(v) for k, v in eb.items() if k not in ("ty", "adt")}
-                # field index may differ when the substitution renames the field; names must agree after substitution
-                if "name" in ka and "name" in kb:
-                    ka.pop("f", None); kb.pop("f", None)
-                if ka != kb:
-                    raise Diverge("%s: projections differ: %s vs %s" % (ctx, pl(pa), pl(pb)))
-            elif ea != eb:
-                raise Diverge("%s: projections differ: %s vs %s" % (ctx, pl(pa), pl(pb)))
-
-    def operand(self, oa, ob, ctx):
-        for k in ("c", "m"):
-            if k in oa or k in ob:
-                if k not in oa or k not in ob:
-                    raise Diverge("%s: operand kinds differ: %s vs %s" % (ctx, opnd(oa), opnd(ob)))
-                return self.place(oa[k], ob[k], ctx)
-        ka, kb = oa.get("k"), ob.get("k")
-        if ka is None or kb is None:
-            if oa != ob:
-                raise Diverge("%s: operands differ" % ctx)
+    def term_eq(self, ta, tb, ctx):
+        if isinstance(ta, tuple) != isinstance(tb, tuple):
+            raise Diverge("%s: %s vs %s" % (ctx, tstr(ta)[:120] if isinstance(ta, tuple) else ta, tstr(tb)[:120] if isinstance(tb, tuple) else tb))
+        if not isinstance(ta, tuple):
+            if self.canon(ta) != self.canon(tb):
+                raise Diverge("%s: %r vs %r" % (ctx, ta, tb))
             return
-        for key in ("fn", "v", "def", "static", "promoted_dbg", "bytes"):
-            va, vb = ka.get(key), kb.get(key)
-            if key == "def" and ("promoted" in ka or "promoted" in kb):
-                continue    # promoted constants are named after the enclosing function
-            if isinstance(va, list):
-                va = [self.canon(x) for x in va]
-                vb = [self.canon(x) for x in (vb or [])]
-            if self.canon(va) != self.canon(vb):
-                raise Diverge("%s: constants differ: %s vs %s" % (ctx, opnd(oa), opnd(ob)))
-        fa = [self.canon(x) for x in ka.get("fn_args", [])]
-        fb = [self.canon(x) for x in kb.get("fn_args", [])]
-        if self.types and fa != fb:
-            raise Diverge("%s: generic arguments differ: %s vs %s" % (ctx, ka.get("fn_args"), kb.get("fn_args")))
-
-    def rvalue(self, ra, rb, ctx):
-        if ra["r"] != rb["r"]:
-            raise Diverge("%s: %s vs %s" % (ctx, rval(ra), rval(rb)))
-        k = ra["r"]
-        if k in ("use", "un", "repeat"):
-            if k == "un" and ra["op"] != rb["op"]:
-                raise Diverge("%s: %s vs %s" % (ctx, rval(ra), rval(rb)))
-            self.operand(ra["o"], rb["o"], ctx)
-        elif k in ("ref", "rawptr"):
-            if ra["mut"] != rb["mut"]:
-                raise Diverge("%s: %s vs %s" % (ctx, rval(ra), rval(rb)))
-            self.place(ra["p"], rb["p"], ctx)
-        elif k == "discr":
-            self.place(ra["p"], rb["p"], ctx)
-        elif k == "cast":
-            if ra["kind"] != rb["kind"] or (self.types and self.canon(ra["ty"]) != self.canon(rb["ty"])):
-                raise Diverge("%s: %s vs %s" % (ctx, rval(ra), rval(rb)))
-            self.operand(ra["o"], rb["o"], ctx)
-        elif k == "bin":
-            if ra["op"] != rb["op"]:
-                raise Diverge("%s: %s vs %s" % (ctx, rval(ra), rval(rb)))
-            self.operand(ra["a"], rb["a"], ctx)
-            self.operand(ra["b"], rb["b"], ctx)
-        elif k == "agg":
-            for key in ("agg", "def", "vname"):
-                if self.canon(ra.get(key)) != self.canon(rb.get(key)):
-                    raise Diverge("%s: %s vs %s" % (ctx, rval(ra), rval(rb)))
-            if len(ra["ops"]) != len(rb["ops"]):
-                raise Diverge("%s: %s vs %s" % (ctx, rval(ra), rval(rb)))
-            for x, y in zip(ra["ops"], rb["ops"]):
-                self.operand(x, y, ctx)
+        if not ta or not tb:
+            if ta != tb:
+                raise Diverge("%s: %s vs %s" % (ctx, ta, tb))
+            return
+        ka, kb = ta[0], tb[0]
+        if not isinstance(ka, str):
+            if len(ta) != len(tb):
+                raise Diverge("%s: arity %d vs %d" % (ctx, len(ta), len(tb)))
+            for x, y in zip(ta, tb):
+                self.term_eq(x, y, ctx)
+            return
+        if ka != kb:
+            raise Diverge("%s: %s vs %s" % (ctx, tstr(ta)[:120], tstr(tb)[:120]))
+        if ka == "var":
+            self.bind_local(ta[1], tb[1], ctx)
+            return
+        if ka == "param":
+            if ta[1] != tb[1]:
+                raise Diverge("%s: parameter %d vs %d" % (ctx, ta[1], tb[1]))
+            return
+        if ka == "call":
+            na, nb = self.canon(ta[1]), self.canon(tb[1])
+            wa, wb = self.canon(ta[4] if len(ta) > 4 else ta[1]), self.canon(tb[4] if len(tb) > 4 else tb[1])
+            if na != nb and wa != wb:
+                raise Diverge("%s: callees differ: %s vs %s" % (ctx, ta[1], tb[1]))
+            if len(ta[2]) != len(tb[2]):
+                raise Diverge("%s: %s vs %s" % (ctx, tstr(ta)[:120], tstr(tb)[:120]))
+            for x, y in zip(ta[2], tb[2]):
+                self.term_eq(x, y, ctx)
+            if self.types and [self.canon(x) for x in ta[3]] != [self.canon(x) for x in tb[3]]:
+                raise Diverge("%s: generic arguments of %s differ: %s vs %s" % (ctx, ta[1], ta[3], tb[3]))
+            return
+        if ka in ("promoted",):
+            if [self.canon(x) for x in ta[3]] != [self.canon(x) for x in tb[3]]:
+                raise Diverge("%s: constants differ: %s vs %s" % (ctx, ta[3], tb[3]))
+            return
+        if ka == "cast" and not self.types:
+            self.term_eq(ta[1], tb[1], ctx)
+            return
+        if ka == "zst" or ka == "constdbg":
+            if self.types and self.canon(str(ta[1:])) != self.canon(str(tb[1:])):
+                raise Diverge("%s: %s vs %s" % (ctx, ta, tb))
+            return
+        if len(ta) != len(tb):
+            raise Diverge("%s: %s vs %s" % (ctx, tstr(ta)[:120], tstr(tb)[:120]))
+        for x, y in zip(ta[1:], tb[1:]):
+            if isinstance(x, tuple) or isinstance(y, tuple):
+                self.term_eq(x, y, ctx)
+            elif self.canon(x) != self.canon(y):
+                raise Diverge("%s: %s vs %s" % (ctx, tstr(ta)[:120], tstr(tb)[:120]))
 
     def block(self, ba, bb, ctx):
+        ba, bb = self.A.resolve(ba), self.B.resolve(bb)
         if ba in self.bmap:
             if self.bmap[ba] != bb:
-                raise Diverge("%s: control flow differs: bb%d of the first twin corresponds to bb%d, not bb%d" % (ctx, ba, self.bmap[ba], bb))
-            return False
+                raise Diverge("%s: control flow differs (bb%d corresponds to bb%d, not bb%d)" % (ctx, ba, self.bmap[ba], bb))
+            return None
         if bb in self.brev:
-            raise Diverge("%s: control flow differs: bb%d of the second twin already corresponds to bb%d" % (ctx, bb, self.brev[bb]))
+            raise Diverge("%s: control flow differs (bb%d of the second twin already corresponds to bb%d)" % (ctx, bb, self.brev[bb]))
         self.bmap[ba] = bb
         self.brev[bb] = ba
-        return True
+        return ba, bb
+
+    def operand(self, side, o):
+        return side.b.term_of_operand(o)
 
     def walk(self):
-        if self.A.nargs != self.B.nargs:
+        if self.A.b.nargs != self.B.b.nargs:
             raise Diverge("argument counts differ")
-        for i in range(self.A.nargs + 1):
-            self.local(i, i, "signature")
-        stack = [(0, 0)]
-        self.block(0, 0, "entry")
+        start = self.block(0, 0, "entry")
+        stack = [start]
         while stack:
             ba, bb = stack.pop()
-            A, B = self.A.blocks[ba], self.B.blocks[bb]
             ctx = "bb%d/bb%d" % (ba, bb)
-            if len(A["stmts"]) != len(B["stmts"]):
-                sa = [stmt_str(s) for s in A["stmts"]]
-                sb = [stmt_str(s) for s in B["stmts"]]
-                k = 0
-                while k < min(len(sa), len(sb)):
-                    k += 1
-                raise Diverge("%s: %d vs %d statements; first twin: %s | second twin: %s" % (ctx, len(sa), len(sb), sa[-3:], sb[-3:]))
-            for sa, sb in zip(A["stmts"], B["stmts"]):
+            sa, ta = self.A.summary(ba)
+            sb, tb = self.B.summary(bb)
+            if len(sa) != len(sb):
+                raise Diverge("%s: %d vs %d state stores: %s | %s" % (ctx, len(sa), len(sb), [tstr(p)[:40] + " := " + tstr(v)[:60] for p, v in sa],
+                                                                      [tstr(p)[:40] + " := " + tstr(v)[:60] for p, v in sb]))
+            # match stores irrespective of order: greedy matching on equal terms
+            remaining = list(sb)
+            for pa, va in sa:
+                ok = False
+                last = None
+                for k, (pb, vb) in enumerate(remaining):
+                    snap = (dict(self.lmap), dict(self.lrev))
+                    try:
+                        self.term_eq(pa, pb, ctx)
+                        self.term_eq(va, vb, ctx)
+                        remaining.pop(k)
+                        ok = True
+                        break
+                    except Diverge as d:
+                        self.lmap, self.lrev = snap
+                        last = d
                 self.steps += 1
-                c2 = "%s `%s` vs `%s`" % (ctx, stmt_str(sa), stmt_str(sb))
-                if sa["s"] != sb["s"]:
-                    raise Diverge(c2)
-                if sa["s"] == "assign":
-                    self.rvalue(sa["rv"], sb["rv"], c2)
-                    self.place(sa["lhs"], sb["lhs"], c2)
-                elif sa["s"] == "setdiscr":
-                    self.place(sa["lhs"], sb["lhs"], c2)
-                    if sa["variant"] != sb["variant"]:
-                        raise Diverge(c2)
-            ta, tb = A["term"], B["term"]
+                if not ok:
+                    raise Diverge("%s: store `%s := %s` of the first twin has no counterpart (%s)" % (ctx, tstr(pa)[:60], tstr(va)[:100], last))
             self.steps += 1
-            c2 = "%s `%s` vs `%s`" % (ctx, term_str(ta), term_str(tb))
-            if ta["t"] != tb["t"]:
-                raise Diverge(c2)
             k = ta["t"]
+            c2 = "%s terminators" % ctx
+            if k != tb["t"]:
+                raise Diverge("%s: %s vs %s" % (c2, k, tb["t"]))
             succ = []
             if k == "goto":
                 succ.append((ta["target"], tb["target"]))
             elif k == "switch":
-                self.operand(ta["discr"], tb["discr"], c2)
-                if [v for v, _ in ta["targets"]] != [v for v, _ in tb["targets"]]:
-                    raise Diverge(c2)
-                succ.extend((x[1], y[1]) for x, y in zip(ta["targets"], tb["targets"]))
+                self.term_eq(self.operand(self.A, ta["discr"]), self.operand(self.B, tb["discr"]), c2 + " (branch condition)")
+                va = sorted((str(v), d) for v, d in ta["targets"])
+                vb = sorted((str(v), d) for v, d in tb["targets"])
+                if [v for v, _ in va] != [v for v, _ in vb]:
+                    raise Diverge("%s: switch values differ" % c2)
+                succ.extend((x[1], y[1]) for x, y in zip(va, vb))
                 succ.append((ta["otherwise"], tb["otherwise"]))
             elif k == "call":
-                ca, cb = ta["callee"], tb["callee"]
-                na = ca.get("res", {}).get("def") if ca.get("res", {}).get("is_item") else ca.get("def")
-                nb = cb.get("res", {}).get("def") if cb.get("res", {}).get("is_item") else cb.get("def")
-                if self.canon(na or ca.get("indirect")) != self.canon(nb or cb.get("indirect")):
-                    raise Diverge("%s: callees differ: %s vs %s" % (ctx, na, nb))
-                if self.types and [self.canon(x) for x in ca.get("args", [])] != [self.canon(x) for x in cb.get("args", [])]:
-                    raise Diverge("%s: generic arguments of %s differ: %s vs %s" % (ctx, na, ca.get("args"), cb.get("args")))
-                if len(ta["args"]) != len(tb["args"]):
-                    raise Diverge(c2)
-                for x, y in zip(ta["args"], tb["args"]):
-                    self.operand(x, y, c2)
-                self.place(ta["dest"], tb["dest"], c2)
+                self.term_eq(self.A.b.term_of_call(ta), self.B.b.term_of_call(tb), c2 + " (call)")
+                da, db = ta["dest"], tb["dest"]
+                if da["p"] or db["p"] or da["l"] in self.A.multi or db["l"] in self.B.multi:
+                    if da["p"] or db["p"]:
+                        self.term_eq(self.A.b.term_of_place(da), self.B.b.term_of_place(db), c2 + " (call destination)")
+                    else:
+                        if (da["l"] in self.A.multi) != (db["l"] in self.B.multi):
+                            raise Diverge("%s: call destination is state in one twin only" % c2)
+                        self.bind_local(da["l"], db["l"], c2)
                 if (ta["target"] is None) != (tb["target"] is None):
-                    raise Diverge(c2)
+                    raise Diverge("%s: one call diverges" % c2)
                 if ta["target"] is not None:
                     succ.append((ta["target"], tb["target"]))
             elif k == "assert":
                 if ta["kind"] != tb["kind"] or ta["expected"] != tb["expected"]:
-                    raise Diverge(c2)
-                self.operand(ta["cond"], tb["cond"], c2)
+                    raise Diverge("%s: assertions differ: %s vs %s" % (c2, ta["kind"], tb["kind"]))
                 for x, y in zip(ta["ops"], tb["ops"]):
-                    self.operand(x, y, c2)
+                    self.term_eq(self.operand(self.A, x), self.operand(self.B, y), c2 + " (assert operands)")
                 succ.append((ta["target"], tb["target"]))
             elif k == "drop":
-                self.place(ta["place"], tb["place"], c2)
                 succ.append((ta["target"], tb["target"]))
             for x, y in succ:
-                if self.block(x, y, c2):
-                    stack.append((x, y))
+                r = self.block(x, y, c2)
+                if r is not None:
+                    stack.append(r)
         return self.steps
-
-
-def stmt_str(st):
-    if st["s"] == "assign":
-        return "%s = %s" % (pl(st["lhs"]), rval(st["rv"]))
-    return st["s"]
 
 
 def compare(A, B, subst, types=True):
     """Returns (True, steps) or (False, message)."""
     w = Walker(A, B, subst, types)
     try:
-        steps = w.walk()
-        return True, steps
+        return True, w.walk()
     except Diverge as d:
         return False, str(d)
